@@ -35,7 +35,8 @@ Inductive cmd :=
 | CEot (x : tlt)             (* the natural end of the track; x: the entry get_eot_tlid announces *)
 | CStop
 | CPlay0                     (* play() while stopped: the current entry starts again *)
-| CEdit (o : op).            (* add / move / shuffle / remove that leaves the playing entry in place *)
+| CEdit (o : op)             (* add / move / shuffle / remove that leaves the playing entry in place *)
+| CSetMode (which : Z) (v : bool).   (* an option change (consume may only be switched off) *)
 
 Definition D := Deliver.
 Definition ops_of (st : ps) (c : cmd) : list op :=
@@ -50,6 +51,7 @@ Definition ops_of (st : ps) (c : cmd) : list op :=
   | CStop => [Stop; D; D]
   | CPlay0 => [Play None; D; D; D; D]
   | CEdit o => [o]
+  | CSetMode which v => [SetMode which v]
   end.
 
 Definition target (c : tlt) (k : cmd) : tlt :=
@@ -73,6 +75,7 @@ Definition ok (f : nat) (w : world) (c : tlt) (k : cmd) : Prop :=
       let w1 := snd (run_op shuf (S f) o w) in
       mem_tlt c (World.tl w1) = true
       /\ (forall y, In y (World.tl w1) -> kind_of w (trk y) = Playable /\ exists len, len_of w (trk y) = Some len)
+  | CSetMode which v => (which =? 0) = false \/ v = false
   end.
 
 Lemma running_accepts w c x : running w c -> In x (World.tl w) -> accepts w x.
@@ -234,6 +237,65 @@ Proof.
   - cbn [fst]. destruct o; try discriminate; exact R1.
 Qed.
 
+(* ---- option changes *)
+Lemma running_ext w w1 c :
+  running w c ->
+  queue w1 = queue w -> pending w1 = pending w -> pending_position w1 = pending_position w ->
+  start_at_position w1 = start_at_position w -> start_paused w1 = start_paused w ->
+  previous_flag w1 = previous_flag w -> current w1 = current w -> tkinds w1 = tkinds w -> tlens w1 = tlens w ->
+  pstate w1 = pstate w -> a_uri w1 = a_uri w -> a_state w1 = a_state w ->
+  consume w1 = false -> a_fresh w1 = a_fresh w -> a_atf_done w1 = a_atf_done w -> script w1 = script w ->
+  World.tl w1 = World.tl w -> running w1 c.
+Proof.
+  intros R E1 E2 E3 E4 E5 E6 E7 E8 E9 E10 E11 E12 E13 E14 E15 E16 E17.
+  destruct (rn_settled w c R) as [Hq Hp Hpp Hsa Hsp Hpf Hc Hb Ha].
+  constructor.
+  - constructor; try congruence.
+    + unfold kind_of in *. rewrite E8. exact Hb.
+    + rewrite E10, E11, E12. exact Ha.
+  - rewrite E10. exact (rn_state w c R).
+  - exact E13.
+  - rewrite E14. exact (rn_fresh w c R).
+  - rewrite E15. exact (rn_atf w c R).
+  - rewrite E16. exact (rn_script w c R).
+  - rewrite E17. exact (rn_in w c R).
+  - intros y Hy. rewrite E17 in Hy. unfold kind_of, len_of. rewrite E8, E9. exact (rn_play w c R y Hy).
+Qed.
+
+Lemma set_mode_running which v c w r w' :
+  running w c -> (which =? 0) = false \/ v = false ->
+  set_mode shuf which v w = (r, w') -> running w' c.
+Proof.
+  intros R Hv E. pose proof (rn_consume w c R) as Hco.
+  unfold set_mode, emit, do_shuffle, bind, get, modify, ret in E.
+  destruct (which =? 0) eqn:E0.
+  - destruct Hv as [Hv|Hv]; [discriminate|]. subst v.
+    destruct (negb (Bool.eqb (consume w) false)); cbn in E; inversion E; subst;
+      apply (running_ext w _ c R); try reflexivity.
+  - destruct (which =? 1) eqn:E1; [|destruct (which =? 2) eqn:E2].
+    + destruct (negb (Bool.eqb (random w) v)), v; cbn in E; inversion E; subst;
+        apply (running_ext w _ c R); try reflexivity; exact Hco.
+    + destruct (negb (Bool.eqb (repeat w) v)); cbn in E; inversion E; subst;
+        apply (running_ext w _ c R); try reflexivity; exact Hco.
+    + destruct (negb (Bool.eqb (single w) v)); cbn in E; inversion E; subst;
+        apply (running_ext w _ c R); try reflexivity; exact Hco.
+Qed.
+
+Lemma set_mode_keeps_running f which v c w :
+  running w c -> (which =? 0) = false \/ v = false ->
+  running (run_world shuf (S f) w [SetMode which v]) c.
+Proof.
+  intros R Hv. unfold run_world. cbn [fold_left]. unfold stepw, step. cbn [run_op].
+  destruct (set_mode shuf which v w) as [r0 w1] eqn:E.
+  pose proof (set_mode_running which v c w r0 w1 R Hv E) as R1.
+  unfold bind. rewrite E.
+  destruct (rn_settled w1 c R1) as [_ _ Hpp1 _ _ _ Hc1 Hb1 _].
+  destruct r0 as [[]|e|]; cbn [fst].
+  - unfold ret. rewrite (gtp_run w1 c Hpp1 Hc1 Hb1). apply running_gtp. exact R1.
+  - rewrite (gtp_run w1 c Hpp1 Hc1 Hb1). apply running_gtp. exact R1.
+  - exact R1.
+Qed.
+
 (* one command keeps the player running and settled *)
 Theorem command_keeps_running f k c w :
   running w c -> ok f w c k ->
@@ -241,7 +303,7 @@ Theorem command_keeps_running f k c w :
 Proof.
   intros R Hok. pose proof (rn_settled w c R) as Hs. pose proof (rn_consume w c R) as Hco.
   pose proof (rn_fresh w c R) as Hfr.
-  destruct k as [| |x|x|i x|p|x| | |o]; cbn [ok ops_of target] in *.
+  destruct k as [| |x|x|i x|p|x| | |o|which v]; cbn [ok ops_of target] in *.
   - (* pause *)
     destruct (pause_agreement_full shuf (S f) c w Hs Hok Hfr) as (A & B & _ & C & _).
     apply (running_next w c c _ Paused R (rn_in w c R) A B C). right; left; reflexivity.
@@ -292,6 +354,8 @@ Proof.
     apply (running_next w c c _ Playing R (rn_in w c R) A B C). left; reflexivity.
   - (* an edit that leaves the playing entry in place *)
     destruct Hok as (He & Hm & Hall). apply edit_keeps_running; assumption.
+  - (* an option change *)
+    apply set_mode_keeps_running; assumption.
 Qed.
 
 (* schedules *)
@@ -375,12 +439,13 @@ Qed.
 
 Example schedule_example_edit :
   all_ok shuf_concrete 10 w_example (mkTlt 1 0)
-    [CEdit (Add [2; 1] (Some 1)); CPause; CEdit (Remove (mkCrit (Some [2]) None)); CResume].
+    [CEdit (Add [2; 1] (Some 1)); CSetMode 1 true; CPause; CEdit (Remove (mkCrit (Some [2]) None)); CSetMode 2 true; CResume].
 Proof.
   cbn [all_ok ok target ops_of].
   repeat match goal with
          | |- _ /\ _ => split
          | |- True => exact I
+         | |- _ \/ _ => left; reflexivity
          | |- forall y, In y _ -> _ =>
              let y := fresh "y" in let Hy := fresh "Hy" in
              intros y Hy; vm_compute in Hy;
